@@ -220,3 +220,38 @@ Proof.
       apply existsb_exists in F6 as [n [Hin Hp]]. exists n, 17. split; [exact Hin|apply ipa_plist_action; [apply Hn; exact Hin|exact Hp]].
     + intros n t' Hin E. specialize (Hact n Hin). rewrite E in Hact. destruct Hact as [H|[]]. congruence.
 Qed.
+
+(* ---------------------------------------------------------------- plain member names are left alone by the normalisation *)
+Lemma split_aux_nonempty l cur : split_slash_aux l cur <> [].
+Proof. revert cur; induction l as [|c r IH]; intros cur; cbn [split_slash_aux]; [discriminate|]. destruct (c =? SLASH); [discriminate|apply IH]. Qed.
+Lemma join_split_aux l cur : join_slash (split_slash_aux l cur) = rev cur ++ l.
+Proof.
+  revert cur; induction l as [|c r IH]; intros cur; cbn [split_slash_aux]; [cbn [join_slash]; rewrite app_nil_r; reflexivity|].
+  destruct (c =? SLASH) eqn:E.
+  - apply Z.eqb_eq in E. subst c. pose proof (split_aux_nonempty r []) as Hne. specialize (IH []).
+    destruct (split_slash_aux r []) as [|y ys]; [contradiction|]. rewrite join_cons2, IH. cbn [rev app]. rewrite <- app_assoc. reflexivity.
+  - rewrite IH. cbn [rev]. rewrite <- app_assoc. reflexivity.
+Qed.
+Definition comp_ok (c : bytes) : bool := negb (bytes_eqb c []) && negb (is_dot c) && negb (is_dotdot c).
+Lemma clean_comps_regular cs st : forallb comp_ok cs = true -> clean_comps cs st = rev st ++ cs.
+Proof.
+  revert st; induction cs as [|c r IH]; intros st H; [cbn [clean_comps]; rewrite app_nil_r; reflexivity|].
+  cbn [forallb] in H. apply andb_true_iff in H as [Hc Hr]. unfold comp_ok in Hc. apply andb_true_iff in Hc as [Hc Hdd]. apply andb_true_iff in Hc as [Hne Hd].
+  cbn [clean_comps]. destruct c as [|c0 c']; [discriminate Hne|].
+  destruct (is_dot (c0 :: c')); [discriminate Hd|]. destruct (is_dotdot (c0 :: c')); [discriminate Hdd|].
+  rewrite IH by exact Hr. cbn [rev]. rewrite <- app_assoc. reflexivity.
+Qed.
+Theorem plain_is_normalised n : plain_name n = true -> zip_norm n = n.
+Proof.
+  unfold plain_name. intros H. apply andb_true_iff in H as [Hne Hall].
+  assert (Hall' : forallb comp_ok (split_slash n) = true).
+  { rewrite forallb_forall in *. intros c Hc. specialize (Hall c Hc). unfold comp_ok. exact Hall. }
+  unfold zip_norm.
+  assert (Habs : has_prefix n magic_zip_abs_prefix = false).
+  { destruct n as [|c r]; [reflexivity|]. unfold has_prefix, magic_zip_abs_prefix. cbn [is_prefix]. destruct (47 =? c) eqn:E; [|reflexivity].
+    apply Z.eqb_eq in E. subst c. unfold split_slash in Hall'. cbn [split_slash_aux] in Hall'. change (47 =? SLASH) with true in Hall'. cbv iota in Hall'. cbn in Hall'. discriminate Hall'. }
+  rewrite Habs. change magic_zip_cleans with true. cbv iota. unfold path_clean_rel.
+  rewrite clean_comps_regular by exact Hall'. cbn [rev app].
+  pose proof (split_aux_nonempty n []) as Hs. unfold split_slash in *. destruct (split_slash_aux n []) as [|y ys] eqn:E; [contradiction|].
+  rewrite <- E. rewrite join_split_aux. reflexivity.
+Qed.
